@@ -229,18 +229,14 @@ func runC32(c *core.Ctx) {
 	vo := eng.Obj(c, pkUtils, "ValidateOwner")
 	var methods []string
 	nSites := 0
-	for _, e := range cg.In[fn] {
-		if e.Site == nil {
-			continue
-		}
+	// call sites, looking through private forwarding helpers
+	forEachEffectiveSite(c, fn, func(caller *ssa.Function, site ssa.CallInstruction, a []ssa.Value) {
 		nSites++
-		caller := e.Caller
 		c.Touch(caller)
-		a := e.Site.Common().Args
 		k, ok := ir.Strip(a[1]).(*ssa.Const)
 		if !ok || k.Value == nil || k.Value.Kind() != constant.String {
-			c.Violate("C32.call-site", caller, "method argument is a string constant", c.P.Rel(e.Site.Pos()), "")
-			continue
+			c.Violate("C32.call-site", caller, "method argument is a string constant", c.P.Rel(site.Pos()), "")
+			return
 		}
 		m := constant.StringVal(k.Value)
 		methods = append(methods, m+"@"+ir.FuncName(caller))
@@ -251,11 +247,12 @@ func runC32(c *core.Ctx) {
 				okAddr = true
 			}
 		}
-		c.Decide(okAddr && isFieldNamed(a[3], "Address"), "C32.call-site", caller, "approver = the params.Address that ValidateOwner checked", c.P.Rel(e.Site.Pos()), "method "+m)
+		c.Decide(okAddr && isFieldNamed(a[3], "Address"), "C32.call-site", caller, "approver = the params.Address that ValidateOwner checked", c.P.Rel(site.Pos()), "method "+m)
 		// input derives from the decoded parameter object
 		okIn := derivesFromAlloc(a[2], 8)
-		c.Decide(okIn, "C32.call-site", caller, "input derives from the decoded request parameter", c.P.Rel(e.Site.Pos()), "method "+m)
-	}
+		c.Decide(okIn, "C32.call-site", caller, "input derives from the decoded request parameter", c.P.Rel(site.Pos()), "method "+m)
+	})
+	_ = cg
 	c.Floor("CheckConsensusSigns call sites", nSites, 10)
 	sort.Strings(methods)
 	seen := map[string]string{}
@@ -289,6 +286,10 @@ func derivesFromAlloc(v ssa.Value, depth int) bool {
 	switch x := v.(type) {
 	case *ssa.Alloc:
 		return true
+	case *ssa.Parameter:
+		if r := ir.Resolve(x); r != ssa.Value(x) {
+			return derivesFromAlloc(r, depth-1) // a forwarding helper's parameter
+		}
 	case *ssa.UnOp:
 		return derivesFromAlloc(x.X, depth-1)
 	case *ssa.FieldAddr:
